@@ -130,9 +130,12 @@ func (d *deepCopier) deepCopyPtr(in, out reflect.Value) {
 	if in.IsNil() {
 		return
 	}
-	pKey := ptrKey{ptr: in.Pointer(), typ: in.Type()}
+	// Key by the unnamed pointer type (as registerPair does), so that
+	// references of a declared pointer type (type Ref *T) and plain *T
+	// references to the same object share one entry.
+	pKey := ptrKey{ptr: in.Pointer(), typ: reflect.PtrTo(in.Type().Elem())}
 	if ov, ok := d.ptrMap[pKey]; ok {
-		out.Set(ov)
+		out.Set(ov.Convert(out.Type()))
 		// The deep part of the copying has already been taken care of
 		return
 	}
